@@ -103,7 +103,10 @@ class ConnSession:
             return sched.VSerial(self.dev)
         if self.nopen > 1 and self.spec.get("second"):
             self.dev2 = make_device(self.spec["second"].get("device"), None)
-            return sched.VSerial(self.dev2)
+            self.dev2.tag = 2
+            port2 = sched.VSerial(self.dev2)
+            port2.tag = 2
+            return port2
         self.dev = make_device(self.spec.get("device"), None)
         port = sched.VSerial(self.dev)
         wf = self.spec.get("write_fault_after")
@@ -177,6 +180,8 @@ class ConnSession:
                 self.conn2.close()
             elif k == "put2":
                 self.conn2.put(op[1], op[2], op[3])
+            elif k == "get2":
+                self.conn2.get(op[1], op[2])
             elif k == "snap":
                 res = list(c.get_communication_log_items())
             elif k == "connected":
